@@ -123,6 +123,11 @@ var schemas = map[string][]field{
 	"NHGEntryC":   {{"Id", "Id", kNat}, {"NextHopGroup", "NextHopGroup", kPtr("Unit")}},
 	// the RIB's orchestration (rib/rib.go)
 	"pendingEntry": {{"ni", "ni", kStr}, {"op", "op", kPtrNN("AFTOperationC")}},
+	"NewElem": {{"Key", "Key", kNat}},
+	"NewAfts": {{"Ipv4Entry", "Ipv4Entry", kind{k: "list", s: "NewElem", elemNN: true, keyed: true}}, {"Ipv6Entry", "Ipv6Entry", kind{k: "list", s: "NewElem", elemNN: true, keyed: true}},
+		{"LabelEntry", "LabelEntry", kind{k: "list", s: "NewElem", elemNN: true, keyed: true}}, {"NextHopGroup", "NextHopGroup", kind{k: "list", s: "NewElem", elemNN: true, keyed: true}},
+		{"NextHop", "NextHop", kind{k: "list", s: "NewElem", elemNN: true, keyed: true}}},
+	"NewRIB":  {{"Afts", "Afts", kPtrNN("NewAfts")}},
 	"OrigTop":       {{"NextHopGroupNetworkInstance", "NextHopGroupNetworkInstance", kStr}, {"NextHopGroup", "NextHopGroup", kNat}, {"Prefix", "Prefix", kStr}, {"Label", "Label", kNat}},
 	"OrigNHGMember": {{"Key", "Key", kNat}, {"Index", "Index", kNat}},
 	"StringValue":   {{"Value", "Value", kStr}},
@@ -154,7 +159,7 @@ var leanStruct = map[string]string{
 	"IPv4EntryC": "IPv4EntryC", "IPv6EntryC": "IPv6EntryC", "LabelEntryC": "LabelEntryC", "NHGEntryC": "NHGEntryC", "NHEntryC": "NHEntryC", "AFTOperationC": "AFTOperationC", "ModifyRequestC": "ModifyRequestC",
 	"AFTErrorDetails": "AFTErrorDetails", "AFTResultC": "AFTResultC", "SessionParametersResult": "SessionParametersResult", "ModifyResponseC": "ModifyResponseC", "PendingOp": "PendingOp",
 	"ElectionReqDetails": "ElectionReqDetails", "SessionParamReqDetails": "SessionParamReqDetails", "OpDetailsResults": "OpDetailsResults", "COpResult": "COpResult",
-	"AFTResultList": "(List AFTResultC)", "Bool": "Bool", "pendingQueue": "PendingQueue", "pendingEntry": "PendingEntry", "RibOpResult": "RibOpResult", "OrigTop": "OrigTop", "OrigNHGMember": "OrigNHGMember", "OrigNHG": "OrigNHG", "StringValue": "StringValue", "UintValue": "UintValue", "NewTop": "NewTop", "NewNHGMember": "NewNHGMember", "NewNHG": "NewNHG",
+	"AFTResultList": "(List AFTResultC)", "Bool": "Bool", "pendingQueue": "PendingQueue", "pendingEntry": "PendingEntry", "RibOpResult": "RibOpResult", "OrigTop": "OrigTop", "OrigNHGMember": "OrigNHGMember", "OrigNHG": "OrigNHG", "NewElem": "NewElem", "NewAfts": "NewAfts", "NewRIB": "NewRIB", "StringValue": "StringValue", "UintValue": "UintValue", "NewTop": "NewTop", "NewNHGMember": "NewNHGMember", "NewNHG": "NewNHG",
 }
 
 func leanType(k kind) string {
@@ -1339,6 +1344,14 @@ func trCall(c *ast.CallExpr, en env) []val {
 	if cl, ok := en.closures[fn]; ok && cl != nil {
 		fail(c.Pos(), "call of the local function %s outside a return statement", fn)
 	}
+	if fn == "uint32" && len(c.Args) == 1 {
+		x := trExpr(c.Args[0], en)
+		if x.kd.k != "nat" && x.kd.k != "u64" {
+			fail(c.Pos(), "uint32 of %s", x.kd)
+		}
+		// the conversion keeps the low 32 bits
+		return []val{{lean: "(" + atom(x.lean) + " % 4294967296)", kd: kNat}}
+	}
 	if fn == "append" && len(c.Args) == 2 {
 		a, b := trExpr(c.Args[0], en), trExpr(c.Args[1], en)
 		if a.kd.k == "list" && a.kd.s == "String" && b.kd.k == "str" {
@@ -1471,7 +1484,13 @@ func trCall(c *ast.CallExpr, en env) []val {
 					}
 					args = append(args, atom(trExpr(a, en).lean))
 				}
-				oracleEffects = append(oracleEffects, "(Eff."+o.effect+" "+strings.Join(args, " ")+")")
+				ctor := o.effect
+				if i := strings.Index(ctor, ":"); i >= 0 {
+					// a constructor with a leading constant argument
+					args = append([]string{ctor[i+1:]}, args...)
+					ctor = ctor[:i]
+				}
+				oracleEffects = append(oracleEffects, "(Eff."+ctor+" "+strings.Join(args, " ")+")")
 			}
 			var out []val
 			for _, r := range o.results {
@@ -2518,7 +2537,14 @@ func trStmts(list []ast.Stmt, en env, k cont) string {
 						name = a
 					}
 					e1.declare(n.Name, val{lean: "[]", kd: kind{k: "list", s: name, elemNN: true}})
-				case "*aft.Afts_Ipv4Entry", "*aft.Afts_Ipv6Entry", "*aft.Afts_LabelEntry", "*aft.Afts_NextHopGroup":
+				case "*aft.Afts_Ipv4Entry", "*aft.Afts_Ipv6Entry", "*aft.Afts_LabelEntry", "*aft.Afts_NextHopGroup", "*aft.Afts_NextHop":
+					if cur != nil && cur.typeMap["installed"] != "" {
+						// the installed entry is opaque to this function
+						p := fresh("path")
+						e1.isNil[p] = true
+						e1.declare(n.Name, val{lean: "none", kd: kPtr(cur.typeMap["installed"]), path: p})
+						break
+					}
 					sch := "OrigTop"
 					if t == "*aft.Afts_NextHopGroup" {
 						sch = "OrigNHG"
